@@ -107,6 +107,12 @@ func c16Clobber(ctx *rt.Ctx, c c16Case) string {
 		err := w.Flush()
 		failed = err != nil
 		detail = fmt.Sprint(err)
+		if failed {
+			// trying again on the same writer must fail again and still leave the file alone
+			if err2 := w.Flush(); err2 == nil {
+				failed, detail = false, "a second Flush on the same writer succeeded after the first one was refused"
+			}
+		}
 	default:
 		bin := os.Getenv("VCHECK_UPDOG_BIN")
 		if bin == "" {
